@@ -569,6 +569,7 @@ func (ex *Exec) runBody(f *frame, entry *State, params []Term) {
 	type ret struct {
 		st   *State
 		vals []Term
+		pos  token.Pos
 	}
 	var rets []ret
 
@@ -717,7 +718,7 @@ func (ex *Exec) runBody(f *frame, entry *State, params []Term) {
 				for _, r := range x.Results {
 					vs = append(vs, f.val(r))
 				}
-				rets = append(rets, ret{st, vs})
+				rets = append(rets, ret{st, vs, x.Pos()})
 				terminated = true
 			case *ssa.Panic:
 				ex.doPanic(f, st, x)
@@ -749,6 +750,23 @@ func (ex *Exec) runBody(f *frame, entry *State, params []Term) {
 					ex.checkInvariants(f, bs, f.loopInfo[s], b, "step")
 				}
 			}
+		}
+	}
+	// per-return postconditions
+	if f.contract != nil && !f.inline && len(f.contract.EachRet) > 0 {
+		for ri, r := range rets {
+			saved := f.results
+			f.results = r.vals
+			env := ex.frameEnv(f, r.st, f.entry)
+			for _, cl := range f.contract.EachRet {
+				v, err := env.trans(cl.Expr)
+				if err != nil {
+					ex.oblige(f, r.st, "ensures", cl.Label+":does-not-attach", cl.Label, fn.Pos(), tFalse, "the contract no longer attaches to the code ("+err.Error()+"): "+cl.Text)
+					continue
+				}
+				ex.oblige(f, r.st, "ensures", fmt.Sprintf("%s:return%d", cl.Label, ri+1), cl.Label, r.pos, v.t, fmt.Sprintf("postcondition at return #%d: %s", ri+1, cl.Text))
+			}
+			f.results = saved
 		}
 	}
 	// merge returns
@@ -832,7 +850,11 @@ func (ex *Exec) siteAsserts(f *frame, st *State, b *ssa.BasicBlock, ins ssa.Inst
 			ex.oblige(f, st, "assert", sa.Label+":does-not-attach", sa.Label, ins.Pos(), tFalse, "the contract no longer attaches to the code ("+err.Error()+"): "+sa.Text)
 			continue
 		}
-		ex.oblige(f, st, "assert", sa.Label, sa.Label, ins.Pos(), v.t, "assertion before "+sa.Site+": "+sa.Text)
+		detail := sa.Label
+		if cs := ex.V.enclosingCase(ins.Pos()); cs != "" {
+			detail += "@" + cs
+		}
+		ex.oblige(f, st, "assert", detail, sa.Label, ins.Pos(), v.t, "assertion before "+sa.Site+": "+sa.Text)
 	}
 }
 
